@@ -5,7 +5,10 @@
 
 package syzgydb
 
-import "unsafe"
+import (
+	"bytes"
+	"unsafe"
+)
 
 // VerifSpace is one range of the free map.
 type VerifSpace struct {
@@ -124,4 +127,12 @@ func VerifCollectionFileName(dataFolder, name string) string {
 	globalConfig.DataFolder = dataFolder
 	defer func() { globalConfig.DataFolder = saved }()
 	return (&Server{}).collectionNameToFileName(name)
+}
+
+// VerifIndentWrite runs one Write call of the export indenter and returns what it emitted.
+func VerifIndentWrite(prefix string, needIndent bool, p []byte) []byte {
+	var buf bytes.Buffer
+	iw := &indentWriter{w: &buf, prefix: prefix, needIndent: needIndent}
+	iw.Write(p)
+	return buf.Bytes()
 }
